@@ -119,7 +119,7 @@ def injected_case(draw):
         for e in c["script"]:
             e["susp"] = draw(st.sampled_from([1, 1, 2]))
     if gen.chance(draw, 0.3, "c13-placement"):
-        case["placement"] = {"sleeper": draw(st.sampled_from(["call", "policy", "none"])), "sleeper_flavour": draw(st.sampled_from(["async", "awaitable"]))}
+        case["placement"] = {"sleeper": draw(st.sampled_from(["call", "policy", "none"])), "sleeper_flavour": draw(st.sampled_from(["async", "awaitable", "awaitable_obj"]))}
     return case
 
 
